@@ -61,6 +61,16 @@ func (w *World) VerifyFunc(c *Contract, prop string) (*Unit, error) {
 				case item == `\nothing`, item == `\fresh`, item == "":
 				case item == `\all`:
 					fs.all = true
+				case strings.HasPrefix(item, `\elems(`):
+					av, err := env.eval(strings.TrimSuffix(strings.TrimPrefix(item, `\elems(`), ")"))
+					if err != nil {
+						w.fail("%s:%d: assigns: %v", cl.File, cl.Line, err)
+						continue
+					}
+					if sl, ok := av.Typ.Underlying().(*types.Slice); ok {
+						earr, esort := u.elemArr(sl.Elem())
+						fs.locs = append(fs.locs, &Loc{Arr: earr, Sort: esort, Key: "(sl.base " + av.T + ")", Typ: sl.Elem()})
+					}
 				case strings.HasPrefix(item, `\after(`):
 					av, err := env.eval(strings.TrimSuffix(strings.TrimPrefix(item, `\after(`), ")"))
 					if err != nil {
